@@ -123,13 +123,18 @@ func stringCatalogue(field string, thorough bool) []string {
 	lf := strings.ToLower(field)
 	switch {
 	case lf == "prefix":
-		c := []string{"prefix.full", "prefix.short", "prefix.closed", "prefix.empty", "prefix.nomatch", "prefix.ambiguous", "prefix.ctrl"}
+		// classes computed from the actual population (see Meta.value): full id, shortest unique
+		// prefix, one character less than that, a prefix two bugs share, nothing, no match
+		c := []string{"prefix.full", "prefix.short", "prefix.closed", "prefix.short-1", "prefix.empty", "prefix.nomatch", "prefix.ambiguous", "prefix.ctrl"}
 		if thorough {
 			c = append(c, "prefix.upper", "prefix.toolong", "prefix.identity")
 		}
 		return c
 	case lf == "targetprefix":
-		c := []string{"cid.full", "cid.short", "cid.create", "cid.empty", "cid.nomatch", "cid.bugonly", "cid.ctrl"}
+		// combined ids interleave bug and comment characters (b c b c b c b b b c ...): lengths
+		// 1-4 cover bug-only prefixes and the first comment characters; samebug / crossbug are the
+		// longest prefixes two comments of one bug / of two bugs share
+		c := []string{"cid.full", "cid.short", "cid.create", "cid.short-1", "cid.len1", "cid.len2", "cid.len3", "cid.len4", "cid.samebug", "cid.crossbug", "cid.empty", "cid.nomatch", "cid.bugonly", "cid.ctrl"}
 		if thorough {
 			c = append(c, "cid.otherbug", "cid.ambiguous")
 		}
